@@ -20,7 +20,7 @@ LEVEL_TEXT = ("exhaustive on the small spaces named by the property, generated s
 LEVEL_NOTE = "trusts the reference closure (15 lines)"
 RULE = ("cases: (enumerated) DAG x start set x forever mask; (generated) DAG on <= 12 nodes, "
         "hash keys, insertion order, <= 3 start jobs, forever flags, some requirements to "
-        "jobs outside the scheduler, an edit program of <= 5 operations, and a tree of nested "
+        "jobs outside the scheduler, an edit program of <= 6 operations (queries repeated after most steps, not all), and a tree of nested "
         "schedulers for iterate_jobs. non-trivial: the transitive closure differs from the "
         "direct neighbours, or >= 2 start jobs, or a forever exit job, or a query after an "
         "edit; distinct = distinct case digest")
@@ -40,9 +40,12 @@ def cases(draw):
     out_edges = [[draw(st.integers(0, n_out - 1)), draw(st.integers(0, n - 1))]
                  for _ in range(draw(st.integers(0, 3)))] if n_out else []
     starts = draw(st.lists(st.integers(0, n - 1), min_size=1, max_size=3, unique=True))
+    # 4th element: the queries are repeated after this step unless it is 0 (several edits in
+    # a row between two queries: internal caches must not survive edits that cancel out)
     program = draw(st.lists(st.tuples(st.sampled_from(['addjob', 'addedge', 'deledge',
-                                                       'bypass', 'keep']),
-                                      st.integers(0, 40), st.integers(0, 40)), max_size=5))
+                                                       'moveedge', 'bypass', 'keep']),
+                                      st.integers(0, 40), st.integers(0, 40),
+                                      st.integers(0, 2)), max_size=6))
     tree = draw(st.recursive(st.just(None), lambda kids: st.lists(kids, max_size=4),
                              max_leaves=10))
     return dict(n=n, edges=edges, outsiders=n_out, out_edges=out_edges, starts=starts,
@@ -145,7 +148,9 @@ def evaluate(case):
     starts = ['n%d' % s for s in case['starts']]
     check_queries(sched, live, starts, res, 'initial', nontrivial)
     counter = n
-    for step, (op, a, b) in enumerate(case.get('program', ())):
+    for step, stmt in enumerate(case.get('program', ())):
+        op, a, b = stmt[0], stmt[1], stmt[2]
+        query = len(stmt) < 4 or stmt[3] != 0
         names = sorted(live)
         if not names:
             break
@@ -169,6 +174,18 @@ def evaluate(case):
                     live[y].requires(live[x], remove=True)
                 else:
                     continue
+            elif op == 'moveedge':
+                # replace one requirement of y by another one: link counts unchanged
+                reqs = sorted(nm for nm in names if live[nm] in live[y].required)
+                if not reqs:
+                    continue
+                old_req = reqs[a % len(reqs)]
+                cands = [nm for nm in names if int(nm[1:]) < int(y[1:])
+                         and live[nm] not in live[y].required]
+                if not cands:
+                    continue
+                live[y].requires(live[old_req], remove=True)
+                live[y].requires(live[cands[b % len(cands)]])
             elif op == 'bypass':
                 sched.bypass_and_remove(live[x])
                 del live[x]
@@ -180,6 +197,8 @@ def evaluate(case):
             res.fail('C17:members-after-edit', "after step %d (%s) members are %s, model %s"
                      % (step, op, sorted(j.v_id for j in sched.jobs), sorted(live)))
             break
+        if not query:
+            continue
         check_queries(sched, live, starts, res, 'after step %d (%s %s %s)' % (step, op, x, y),
                       nontrivial)
         nontrivial.append('query-after-edit')
